@@ -15,6 +15,7 @@ import (
 	"strings"
 	"sync"
 	"time"
+	_ "unsafe" // go:linkname (alertScheduler)
 
 	"github.com/go-co-op/gocron"
 	"github.com/valyala/fasthttp"
@@ -75,7 +76,8 @@ func init() {
 		return nil
 	})
 	sut.RegisterOp("c20.http", opHTTP)
-	sut.RegisterOp("c20.eval", opEval)
+	sut.RegisterOp("c20.run", opRun)
+	sut.RegisterOp("c20.job", opJob)
 	sut.RegisterOp("c20.waitHistory", opWaitHistory)
 	sut.RegisterOp("c20.initAlerting", opInitAlerting)
 	sut.RegisterOp("c20.quiesce", opQuiesce)
@@ -240,55 +242,104 @@ type evalResult struct {
 	TimedOut bool `json:"timedOut"`
 }
 
-func waitJob(job *gocron.Job, d time.Duration) bool {
-	dl := time.Now().Add(d)
-	for time.Now().Before(dl) {
-		if job.FinishedRunCount() >= 1 {
-			return true
-		}
-		time.Sleep(500 * time.Microsecond)
-	}
-	return false
+// alertScheduler is the gocron scheduler of the alert service (package variable `s` of alertsHandler). The harness
+// uses it as a clock only: Scheduler.RunByTag makes the job that the create handler / update handler /
+// InitAlertingService registered run now instead of EvalInterval minutes later. It takes the same path as the
+// job's timer (Scheduler.run(job) → executor) and therefore calls evaluateLogAlert / evaluateMetricsAlert with the
+// alert object captured at registration, exactly like the second and later scheduled runs in production.
+//
+//go:linkname alertScheduler github.com/siglens/siglens/pkg/alerts/alertsHandler.s
+var alertScheduler *gocron.Scheduler
+
+// minLeadOfTimer: a harness-triggered run is only started when the job's own timer is at least this far away,
+// so that a scheduled run cannot fall into the evaluation under observation.
+const minLeadOfTimer = 15 * time.Second
+
+type jobInfo struct {
+	Jobs     int   `json:"jobs"` // cron jobs registered for the alert
+	Runs     int   `json:"runs"`
+	Finished int   `json:"finished"`
+	NextMs   int64 `json:"nextMs"` // time until the job's own next scheduled run
 }
 
-// opEval runs exactly one scheduled evaluation of the alert: the alert is loaded from the DB and handed to
-// AddCronJob exactly like InitAlertingService does at start-up; gocron runs a new job immediately; after that
-// run has finished the job is removed again (the next run would be EvalInterval minutes later).
-func opEval(r *sut.Req) (interface{}, error) {
+func liveJob(id string) (*gocron.Job, int) {
+	if alertScheduler == nil {
+		return nil, 0
+	}
+	jobs, err := alertScheduler.FindJobsByTag(id)
+	if err != nil || len(jobs) == 0 {
+		return nil, 0
+	}
+	return jobs[0], len(jobs)
+}
+
+func opJob(r *sut.Req) (interface{}, error) {
+	job, n := liveJob(r.Name)
+	res := &jobInfo{Jobs: n}
+	if job != nil {
+		res.Runs, res.Finished, res.NextMs = job.RunCount(), job.FinishedRunCount(), time.Until(job.NextRun()).Milliseconds()
+	}
+	return res, nil
+}
+
+type runResult struct {
+	jobInfo
+	Rows     int  `json:"rows"`
+	Started  bool `json:"started"`  // the harness triggered a run
+	TimedOut bool `json:"timedOut"` // the run did not finish within 40 s
+	TooLate  bool `json:"tooLate"`  // the job's own timer is too close
+}
+
+// opRun makes the alert's live cron job run once more, now (see alertScheduler). Ints["runs"] is the number of
+// runs the job must have made so far; any other count (the job's timer fired on its own) starts nothing.
+func opRun(r *sut.Req) (interface{}, error) {
 	d, _, err := alertDB()
 	if err != nil {
 		return nil, err
 	}
-	alert, err := d.GetAlert(r.Name)
-	if err != nil {
-		return nil, fmt.Errorf("GetAlert: %v", err)
+	job, n := liveJob(r.Name)
+	res := &runResult{}
+	res.Jobs = n
+	if job == nil || n != 1 {
+		return res, nil
 	}
-	if alert == nil || alert.AlertId == "" {
-		return nil, fmt.Errorf("alert %q not found", r.Name)
+	want := int(r.Ints["runs"])
+	res.Runs, res.Finished, res.NextMs = job.RunCount(), job.FinishedRunCount(), time.Until(job.NextRun()).Milliseconds()
+	if res.Runs != want || res.Finished != want {
+		return res, nil
 	}
-	job, err := alertsHandler.AddCronJob(alert)
-	if err != nil {
-		return nil, fmt.Errorf("AddCronJob: %v", err)
+	if time.Until(job.NextRun()) < minLeadOfTimer {
+		res.TooLate = true
+		return res, nil
 	}
-	res := &evalResult{}
-	res.TimedOut = !waitJob(job, 40*time.Second)
-	if err := alertsHandler.RemoveCronJob(r.Name); err != nil {
-		return nil, fmt.Errorf("RemoveCronJob: %v", err)
+	if err := alertScheduler.RunByTag(r.Name); err != nil {
+		return nil, fmt.Errorf("RunByTag: %v", err)
 	}
-	res.Runs = job.RunCount()
-	res.Finished = job.FinishedRunCount()
+	res.Started = true
+	dl := time.Now().Add(40 * time.Second)
+	for job.FinishedRunCount() < want+1 {
+		if time.Now().After(dl) {
+			res.TimedOut = true
+			break
+		}
+		time.Sleep(500 * time.Microsecond)
+	}
+	res.Runs, res.Finished = job.RunCount(), job.FinishedRunCount()
 	res.Rows, _ = historyCount(d, r.Name)
 	return res, nil
 }
 
 // opWaitHistory waits until the alert has at least Ints["rows"] history rows (an evaluation started by a
-// create/update handler writes its history row as its last action), then removes the alert's cron job.
+// create/update handler writes its history row as its last action). Ints["keep"]=1: the job stays registered (the
+// following evaluations are further runs of this job) and its first run is awaited too; otherwise the alert's cron
+// job is removed.
 func opWaitHistory(r *sut.Req) (interface{}, error) {
 	d, _, err := alertDB()
 	if err != nil {
 		return nil, err
 	}
 	want := int(r.Ints["rows"])
+	keep := r.Ints["keep"] == 1
 	res := &evalResult{}
 	dl := time.Now().Add(40 * time.Second)
 	for {
@@ -298,7 +349,15 @@ func opWaitHistory(r *sut.Req) (interface{}, error) {
 		}
 		res.Rows = n
 		if n >= want {
-			break
+			if !keep {
+				break
+			}
+			if job, _ := liveJob(r.Name); job != nil {
+				res.Runs, res.Finished = job.RunCount(), job.FinishedRunCount()
+				if res.Finished >= 1 {
+					break
+				}
+			}
 		}
 		if time.Now().After(dl) {
 			res.TimedOut = true
@@ -306,15 +365,24 @@ func opWaitHistory(r *sut.Req) (interface{}, error) {
 		}
 		time.Sleep(time.Millisecond)
 	}
-	if err := alertsHandler.RemoveCronJob(r.Name); err != nil {
-		return nil, err
+	if !keep {
+		if err := alertsHandler.RemoveCronJob(r.Name); err != nil {
+			return nil, err
+		}
 	}
 	return res, nil
 }
 
-// opInitAlerting is the start-up step of the query server (pkg/server/query/server.go): every stored alert gets
-// its cron job back, which evaluates immediately. Waits like opWaitHistory and removes the job.
+// opInitAlerting is the start-up step of the query server (pkg/server/query/server.go): every stored alert is
+// loaded from the store and gets its cron job, which evaluates immediately. Ints["remove"]=1 first removes the
+// alert's current job (initialisation of the alerting service repeated in the running process). Waits like
+// opWaitHistory.
 func opInitAlerting(r *sut.Req) (interface{}, error) {
+	if r.Ints["remove"] == 1 {
+		if err := alertsHandler.RemoveCronJob(r.Name); err != nil {
+			return nil, err
+		}
+	}
 	alertsHandler.InitAlertingService(server_utils.GetMyIds)
 	return opWaitHistory(r)
 }
